@@ -1,6 +1,6 @@
 """C17 - native-Python codec round trip and Python-value encoding equivalence (E1)."""
 from mc.checks import codec_matrix as CM
-from mc.core.runner import Result, pyasn1_site, exc_text
+from mc.core.runner import guarded, Result, pyasn1_site, exc_text
 from mc.model import x690 as M
 from mc.model import universe as U
 from mc.bind import pyasn1_bind as B
@@ -233,7 +233,7 @@ def shard(tier, i, n, seed):
     for idx, sl, T, v in cases(tier):
         if (idx + seed) % n != i:
             continue
-        check_case(idx, sl, T, v, R)
+        guarded(R, lambda: check_case(idx, sl, T, v, R), {'slice': sl, 'T': T, 'v': v}, CM.type_features(T), idx)
         R.features['slice:' + sl] += 1
         if idx % 4001 == seed % 4001:
             R.sample({'T': M.show_type(T), 'v': v, 'python_tree': repr(B.py_tree(T, v))})
